@@ -458,3 +458,37 @@ Fixpoint cbc_ctl_run (key_size : N) (st : cbc_ctl) (ops : list cbc_op) : list cb
   | [] => []
   | op :: r => let '(s, st') := cbc_ctl_step key_size st op in s :: cbc_ctl_run key_size st' r
   end.
+(* the state after a sequence of calls, and what the specification says it should depend on *)
+Fixpoint cbc_ctl_state (ks : N) (st : cbc_ctl) (ops : list cbc_op) : cbc_ctl :=
+  match ops with [] => st | op :: r => cbc_ctl_state ks (snd (cbc_ctl_step ks st op)) r end.
+Definition keyed (ks : N) (ops : list cbc_op) : bool := existsb (fun op => match op with OpKey n => n =? ks | _ => false end) ops.
+Definition ived (ops : list cbc_op) : bool :=
+  existsb (fun op => match op with OpIv n => n =? 16 | OpNonce => true | _ => false end) ops.
+
+(* =====================================================================================
+   FIPS 180-4 section 6.1.2 (SHA-1 hash computation) written from the standard's text, independently of the
+   loop structure of sha1.h: ROTL with or, f_t as Ch / Parity / Maj (xor forms) selected by t / 20, the K_t table,
+   the message schedule W_t as a recurrence on t (fuel t + 1 suffices), 80 steps, final additions.
+   ===================================================================================== *)
+Definition fips_rotl (n x : N) : N := N.lor (shl32 x n) (N.shiftr x (32 - n)).
+Definition fips_f (t x y z : N) : N :=
+  match t / 20 with 0 => fips_Ch x y z | 2 => fips_Maj x y z | _ => fips_Parity x y z end.
+Definition fips_K (t : N) : N := nth (N.to_nat (t / 20)) [0x5a827999; 0x6ed9eba1; 0x8f1bbcdc; 0xca62c1d6] 0.
+Fixpoint fips_W (fuel : nat) (M : list N) (t : nat) : N :=
+  match fuel with
+  | O => 0
+  | S f => if Nat.ltb t 16 then nth t M 0
+           else fips_rotl 1 (N.lxor (N.lxor (N.lxor (fips_W f M (t - 3)) (fips_W f M (t - 8))) (fips_W f M (t - 14))) (fips_W f M (t - 16)))
+  end.
+Definition fips_step (M : list N) (st : quint) (t : nat) : quint :=
+  let '(a, b, c, d, e) := st in
+  let T := add32 (add32 (add32 (add32 (fips_rotl 5 a) (fips_f (N.of_nat t) b c d)) e) (fips_K (N.of_nat t))) (fips_W (S t) M t) in
+  (T, a, fips_rotl 30 b, c, d).
+Definition be32 (b0 b1 b2 b3 : N) : N := 16777216 * b0 + 65536 * b1 + 256 * b2 + b3.
+Definition sha1_compress_fips (h : quint) (block : list N) : quint :=
+  let M := words be32 block in
+  let '(h0, h1, h2, h3, h4) := h in
+  let '(a, b, c, d, e) := fold_left (fips_step M) (seq 0 80) h in
+  (add32 h0 a, add32 h1 b, add32 h2 c, add32 h3 d, add32 h4 e).
+Definition sha1_spec_fips (m : list N) : list N :=
+  quint_be_bytes (fst (absorb sha1_compress_fips sha1_h0 (sha1_padded m))).
